@@ -19,6 +19,7 @@ pub enum Op {
     ANewFlush,
     A2NoFlush,
     AOnIf1,
+    SameAOnIf1,
     GoodbyeAllI,
     GoodbyeA,
     GoodbyeAInForeign,
@@ -30,7 +31,7 @@ pub enum Op {
     Idle1100,
     Idle5s,
 }
-pub const OPS: [Op; 19] = [
+pub const OPS: [Op; 20] = [
     Op::AnnI2,
     Op::AnnI10,
     Op::AnnI120,
@@ -40,6 +41,7 @@ pub const OPS: [Op; 19] = [
     Op::ANewFlush,
     Op::A2NoFlush,
     Op::AOnIf1,
+    Op::SameAOnIf1,
     Op::GoodbyeAllI,
     Op::GoodbyeA,
     Op::GoodbyeAInForeign,
@@ -192,6 +194,14 @@ impl Scn {
             for (_, idx) in &a.intfs {
                 if !copies.iter().any(|c| c.ifi == *idx) {
                     run.viols.push(viol("C03|address-tagged-with-interface-it-was-not-received-on", format!("{} tagged {} {}", a.ip, idx, ctx(run))));
+                }
+            }
+            // ... and with every interface it is alive on (copies in their last second are left open)
+            let healthy_addrs = inst_view(&run.store, &ty(), &inst, t, 1000).addrs;
+            for c in copies.iter().filter(|c| healthy_addrs.iter().any(|h| h.rec == c.rec && h.ifi == c.ifi && h.last_ttl != 0)) {
+                run.counters.push(("interface_tags_checked_complete", 1));
+                if !a.intfs.iter().any(|(_, idx)| *idx == c.ifi) {
+                    run.viols.push(viol("C03|address-not-tagged-with-an-interface-it-is-alive-on", format!("{} tagged {:?}, alive on {} too; {}", a.ip, a.intfs, c.ifi, ctx(run))));
                 }
             }
         }
@@ -403,7 +413,7 @@ impl Scenario for Scn {
         }
     }
     fn rule(&self) -> String {
-        format!("all sequences over {} events: announcements of two instances sharing a host (TTL 2/10/120), updates with new port / TXT / address (cache-flush), additional address, address learned on a second interface, goodbyes for everything / address / address inside another type's goodbye / SRV / PTR, PTR only, verify(2.7 s), idle 0.4 / 1.1 / 5 s; oracle after every step against the reference record store", self.ops.len())
+        format!("all sequences over {} events: announcements of two instances sharing a host (TTL 2/10/120), updates with new port / TXT / address (cache-flush), additional address, address learned on a second interface, the first address heard on the second interface too, goodbyes for everything / address / address inside another type's goodbye / SRV / PTR, PTR only, verify(2.7 s), idle 0.4 / 1.1 / 5 s; oracle after every step against the reference record store", self.ops.len())
     }
     fn setup(&self) -> Run {
         let mut w = World::one(lay_two());
@@ -447,6 +457,8 @@ impl Scenario for Scn {
                 send(self, run, IF0, vec![r]);
             }
             Op::AOnIf1 => send(self, run, IF1, vec![a(&i.host, [10, 0, 1, 9], 120)]),
+            // the host's first address heard on the second interface as well (multi-homed client, reflector)
+            Op::SameAOnIf1 => send(self, run, IF1, vec![a(&i.host, [10, 0, 0, 9], 120)]),
             Op::GoodbyeAllI => send(self, run, IF0, i.all(0)),
             Op::GoodbyeA => send(self, run, IF0, vec![a(&i.host, [10, 0, 0, 9], 0)]),
             // the address withdrawn in the goodbye of a service of another (unbrowsed) type on the same host
